@@ -448,6 +448,12 @@ pub fn try_reuse_or_claim(
             Some(Slot::Done(entry)) => {
                 let entry = Arc::clone(entry);
                 drop(cache);
+                #[cfg(feature = "verif")]
+                veryl_path::sim::note(
+                    "reuse.hit",
+                    (ff_start - entry.ref_ff_start) as i64,
+                    (comb_start - entry.ref_comb_start) as i64,
+                );
                 return ReuseOutcome::Hit(relocate_entry(&entry, ff_start, comb_start));
             }
             Some(Slot::Computing) => {
